@@ -248,8 +248,12 @@ def run(tier, seed=0, replay=None, procs=None, only=None):
     if only:
         cs = [c for c in cs if re.search(only, c.name)]
     q = tier == 'quick'
+    from symx import envsweep
+    want_edges = [list(e) for e in builders.mesh_edges(builders.MESHES['tqp'][1])[0]]
     return main_run(
         PROP, tier, cs, functions=functions(), seed=seed, procs=procs,
+        late_checks=envsweep.late([('mesh_tables_mixed_orientation', 'a supplied edge-node table is used as given (order and orientation)',
+                                    lambda v: v['edge_dimension'] == 'nedge' and v['edge_count'] == len(want_edges) and v['edge_node'] == want_edges)], only),
         bounds=dict(
             topologies=f'every mesh topology (up to renaming of nodes) with face sizes in {"(3,3) (3,4) (4,3)" if q else "(3,3) (3,4) (4,3) (4,4) (3,5) (3,3,3) (3,3,4)"}: '
                        'node ids are z3 Ints, distinct within a face, canonically labelled; non-manifold meshes (an edge in 3 faces) excluded',
